@@ -55,9 +55,10 @@ extern size_t v_pointer_offset(const void *p);
 # define __CPROVER_POINTER_OFFSET(p) v_pointer_offset(p)
 #else
 /* whole-array nondeterministic assignment: makes the chosen bytes appear in the counterexample trace */
-# define V_FILL(name)          do { struct v_w_##name { __typeof__(name) a; } nd_w_##name; *(struct v_w_##name *) (void *) (name) = nd_w_##name; } while (0)
-# define V_OBJ(x)              do { } while (0)
-# define V_ND(type, name)      do { type nd_##name; (name) = nd_##name; } while (0)
+# define V_FILL(name)          { struct v_w_##name { __typeof__(name) a; } nd_w_##name; *(struct v_w_##name *) (void *) (name) = nd_w_##name; }
+/* (plain blocks, not do-while: a do-while would take a loop number and shift the units' unwind sets) */
+# define V_OBJ(x)              { }
+# define V_ND(type, name)      { type nd_##name; (name) = nd_##name; }
 /* errno as an assigns target (the macro errno is a call, which assigns clauses reject) */
 extern __CPROVER_thread_local int __CPROVER_errno;
 # define V_ERRNO               __CPROVER_errno
